@@ -29,25 +29,27 @@ CONSTANTS MaxBlocks,        \* L2 blocks 1..MaxBlocks
           StoreFaults,      \* may a SaveLastSentCertificate attempt fail (it is retried)?
           LoseDB,           \* may the certificate DB be lost while the node is down?
           HeaderHasPrev,    \* Agglayer headers carry prev_local_exit_root
-          FixedF4           \* model the repaired start-up reconciliation (finding F4) instead of the code as found
+          FixedF4           \* start-up reconciliation: "no" = as found (finding F4), "v1" = first repair attempt (adopts the
+                            \* Agglayer's replacement with retry count 0: later save collides in the history table), "v2" = the repair
 
 VARIABLES l2,      \* sequence of blocks: l2[b] = number of bridge exits in block b
           synced,  \* last L2 block processed by the bridge syncer
           ag,      \* Agglayer ledger, in order of reception: [h, st, from, to, prev, new]
           db,      \* certificate_info: function height -> [id, st, from, to, prev, new, retry]; id indexes ag, prev = -1 is NULL
+          histT,   \* certificate_info_history: set of <<height, retry>> (its primary key); rows are moved there when replaced
           up,      \* node process is running
           ready,   \* CheckInitialStatus has succeeded since the last start
           steps,
           hist
 
-vars == <<l2, synced, ag, db, up, ready, steps, hist>>
-view == <<l2, synced, ag, db, up, ready>>
+vars == <<l2, synced, ag, db, histT, up, ready, steps, hist>>
+view == <<l2, synced, ag, db, histT, up, ready>>
 
 Open(st)   == st \in {"Pending", "Proven", "Candidate"}
 Closed(st) == ~Open(st)
 
 Init ==
-  /\ l2 = <<>> /\ synced = 0 /\ ag = <<>> /\ db = <<>> /\ up = TRUE /\ ready = TRUE /\ steps = 0 /\ hist = <<>>
+  /\ l2 = <<>> /\ synced = 0 /\ ag = <<>> /\ db = <<>> /\ histT = {} /\ up = TRUE /\ ready = TRUE /\ steps = 0 /\ hist = <<>>
 
 Step(e) == /\ steps < MaxSteps /\ steps' = steps + 1 /\ hist' = Append(hist, e)
 
@@ -62,7 +64,7 @@ NewBlock(nb) ==
   /\ Len(l2) < MaxBlocks
   /\ l2' = Append(l2, nb) /\ synced' = Len(l2) + 1
   /\ Step([a |-> "block", nb |-> nb])
-  /\ UNCHANGED <<ag, db, up, ready>>
+  /\ UNCHANGED <<ag, db, histT, up, ready>>
 
 -----------------------------------------------------------------------------
 (* Agglayer side *)
@@ -78,14 +80,18 @@ AgMove(i, st) ==
      \/ ag[i].st = "Candidate" /\ st \in {"Settled", "InError"}
   /\ ag' = [ag EXCEPT ![i].st = st]
   /\ Step([a |-> "agmove", id |-> i, st |-> st])
-  /\ UNCHANGED <<l2, synced, db, up, ready>>
+  /\ UNCHANGED <<l2, synced, db, histT, up, ready>>
 
 -----------------------------------------------------------------------------
 (* local DB *)
 Heights == DOMAIN db
 LastH == IF db = <<>> THEN -1 ELSE CHOOSE h \in Heights : \A k \in Heights : k <= h
 Last == db[LastH]
-DbPut(d, h, row) == (h :> row) @@ d       \* SaveLastSentCertificate: replaces the row of that height
+(* SaveLastSentCertificate: the row of that height (if any) is first moved to the history table, whose primary key is
+   (height, retry_count): the move - and with it the whole save - fails if that key is already there *)
+SaveOK(d, ht, h) == ~(h \in DOMAIN d /\ <<h, d[h].retry>> \in ht)
+DbPut(d, h, row) == (h :> row) @@ d
+HistPut(d, ht, h) == IF h \in DOMAIN d THEN ht \cup {<<h, d[h].retry>>} ELSE ht
 
 (* CheckPendingCertificatesStatus: walks the local non-closed certificates in height order; `fail` = the first Agglayer
    call fails.  Returns [db, pending, newInError]. *)
@@ -133,12 +139,13 @@ IsCert(c) == "h" \in DOMAIN c
 SendCert(d, o) ==
   LET c == NextCert(d) IN
   IF ~IsCert(c) \/ o = "sendfail" \/ o = "crash_before_submit"
-  THEN [ag |-> ag, db |-> d, crashed |-> IsCert(c) /\ o = "crash_before_submit", sent |-> FALSE]
+  THEN [ag |-> ag, db |-> d, ht |-> histT, crashed |-> IsCert(c) /\ o = "crash_before_submit", sent |-> FALSE]
   ELSE LET ag2 == Append(ag, [h |-> c.h, st |-> "Pending", from |-> c.from, to |-> c.to, prev |-> c.prev, new |-> c.new])
            row == [id |-> Len(ag2), h |-> c.h, st |-> "Pending", from |-> c.from, to |-> c.to, prev |-> c.prev, new |-> c.new,
                    retry |-> c.retry]
-       IN IF o = "crash_after_submit" THEN [ag |-> ag2, db |-> d, crashed |-> TRUE, sent |-> TRUE]
-          ELSE [ag |-> ag2, db |-> DbPut(d, c.h, row), crashed |-> o = "crash_after_store", sent |-> TRUE]
+       IN IF o = "crash_after_submit" THEN [ag |-> ag2, db |-> d, ht |-> histT, crashed |-> TRUE, sent |-> TRUE]
+          ELSE IF ~SaveOK(d, histT, c.h) THEN [ag |-> ag2, db |-> d, ht |-> histT, crashed |-> FALSE, sent |-> TRUE]  \* every retry of the save fails
+          ELSE [ag |-> ag2, db |-> DbPut(d, c.h, row), ht |-> HistPut(d, histT, c.h), crashed |-> o = "crash_after_store", sent |-> TRUE]
 
 Outcomes == {"ok"} \cup (IF CallFailures THEN {"sendfail"} ELSE {})
                    \cup { "crash_" \o c : c \in Crashes }
@@ -148,10 +155,10 @@ Tick(kind, checkFails, o) ==
   /\ Len(ag) < MaxCerts \/ o = "ok"
   /\ LET r == CheckPending(checkFails)
          doSend == IF kind = "epoch" THEN ~r.pending ELSE (~r.pending /\ r.newInError /\ RetryImm)
-         s == IF doSend THEN SendCert(r.db, o) ELSE [ag |-> ag, db |-> r.db, crashed |-> FALSE, sent |-> FALSE]
+         s == IF doSend THEN SendCert(r.db, o) ELSE [ag |-> ag, db |-> r.db, ht |-> histT, crashed |-> FALSE, sent |-> FALSE]
      IN /\ Len(s.ag) <= MaxCerts
         /\ (o # "ok" => doSend /\ IsCert(NextCert(r.db)))       \* a fault is only explored where it can strike
-        /\ ag' = s.ag /\ db' = s.db
+        /\ ag' = s.ag /\ db' = s.db /\ histT' = s.ht
         /\ up' = ~s.crashed /\ ready' = (ready /\ ~s.crashed)
   /\ Step([a |-> "tick", kind |-> kind, checkfail |-> checkFails, o |-> o])
   /\ UNCHANGED <<l2, synced>>
@@ -159,43 +166,48 @@ Tick(kind, checkFails, o) ==
 -----------------------------------------------------------------------------
 (* start-up reconciliation: CheckInitialStatus = CheckPending + initialStatus.process + action (one attempt) *)
 HeaderOf(i) == ag[i]
-Recovered(i) ==   \* newCertificateInfoFromAgglayerCertHeader: from/to from the metadata, prev from the header (may be NULL)
+Recovered(i, retry) ==   \* newCertificateInfoFromAgglayerCertHeader: from/to from the metadata, prev from the header (may be NULL)
   [id |-> i, h |-> ag[i].h, st |-> ag[i].st, from |-> ag[i].from, to |-> ag[i].to,
-   prev |-> IF HeaderHasPrev THEN ag[i].prev ELSE -1, new |-> ag[i].new, retry |-> 0]
+   prev |-> IF HeaderHasPrev THEN ag[i].prev ELSE -1, new |-> ag[i].new, retry |-> retry]
 
 Reconcile(d) ==   \* returns [ok, db]
   LET s == LatestSettled  p == LatestPending
       local == d # <<>>
       lh == IF local THEN CHOOSE h \in DOMAIN d : \A k \in DOMAIN d : k <= h ELSE -1
-      refuse == [ok |-> FALSE, db |-> d]
-      insert(i) == [ok |-> TRUE, db |-> DbPut(d, ag[i].h, Recovered(i))]
+      refuse == [ok |-> FALSE, db |-> d, ht |-> histT]
+      \* the recovered certificate is stored with retry count 0, or (repair v2) as a retry of the local one it replaces
+      insertR(i, retry) == IF SaveOK(d, histT, ag[i].h)
+                           THEN [ok |-> TRUE, db |-> DbPut(d, ag[i].h, Recovered(i, retry)), ht |-> HistPut(d, histT, ag[i].h)]
+                           ELSE refuse
+      insert(i) == insertR(i, 0)
   IN
   \* checkAgglayerConsistenceCerts
   IF p # 0 /\ s = 0 /\ ag[p].st # "InError" /\ ag[p].h # 0 THEN refuse
   ELSE IF p # 0 /\ s # 0 /\ ag[p].h = ag[s].h THEN refuse
   ELSE IF p # 0 /\ s # 0 /\ ag[s].h > ag[p].h THEN refuse
   ELSE IF ~local /\ s = 0 /\ p # 0 /\ ag[p].h = 0 THEN insert(p)
-  ELSE IF ~local /\ s = 0 /\ p # 0 /\ ag[p].st = "InError" /\ ag[p].h > 0 THEN [ok |-> TRUE, db |-> d]
+  ELSE IF ~local /\ s = 0 /\ p # 0 /\ ag[p].st = "InError" /\ ag[p].h > 0 THEN [ok |-> TRUE, db |-> d, ht |-> histT]
   ELSE LET a == IF p # 0 THEN p ELSE s IN
-       IF ~local /\ a = 0 THEN [ok |-> TRUE, db |-> d]
+       IF ~local /\ a = 0 THEN [ok |-> TRUE, db |-> d, ht |-> histT]
        ELSE IF ~local THEN insert(a)
        ELSE IF a = 0 THEN refuse
        ELSE IF ag[a].h < lh THEN refuse
        ELSE IF ag[a].h = lh + 1 THEN insert(a)
        ELSE IF ag[a].h > lh + 1 THEN refuse                         \* falls into CASE 4 (ids differ)
-       ELSE IF d[lh].id = a THEN [ok |-> TRUE, db |-> [d EXCEPT ![lh].st = ag[a].st]]
-       ELSE IF FixedF4 /\ d[lh].st = "InError" THEN insert(a)       \* repaired: adopt the replacement the Agglayer holds
+       ELSE IF d[lh].id = a THEN [ok |-> TRUE, db |-> [d EXCEPT ![lh].st = ag[a].st], ht |-> histT]
+       ELSE IF FixedF4 = "v1" /\ d[lh].st = "InError" THEN insert(a)   \* first repair: adopt the replacement the Agglayer holds
+       ELSE IF FixedF4 = "v2" /\ d[lh].st = "InError" THEN insertR(a, d[lh].retry + 1)   \* ... as a retry of the local one
        ELSE refuse                                                  \* CASE 4 "Local certificate is different ..."
 
 Crash ==    \* the process can also simply stop between iterations
   /\ up /\ "after_store" \in Crashes
   /\ up' = FALSE /\ ready' = FALSE
   /\ Step([a |-> "stop"])
-  /\ UNCHANGED <<l2, synced, ag, db>>
+  /\ UNCHANGED <<l2, synced, ag, db, histT>>
 
 DbLoss ==
   /\ ~up /\ LoseDB /\ db # <<>>
-  /\ db' = <<>>
+  /\ db' = <<>> /\ histT' = {}
   /\ Step([a |-> "losedb"])
   /\ UNCHANGED <<l2, synced, ag, up, ready>>
 
@@ -203,8 +215,8 @@ Restart(checkFails) ==
   /\ \/ ~up
      \/ (up /\ ~ready)                       \* CheckInitialStatus retries
   /\ LET r == CheckPending(checkFails)
-         rec == IF checkFails THEN [ok |-> FALSE, db |-> r.db] ELSE Reconcile(r.db)
-     IN /\ db' = rec.db /\ ready' = rec.ok
+         rec == IF checkFails THEN [ok |-> FALSE, db |-> r.db, ht |-> histT] ELSE Reconcile(r.db)
+     IN /\ db' = rec.db /\ histT' = rec.ht /\ ready' = rec.ok
   /\ up' = TRUE
   /\ Step([a |-> "restart", checkfail |-> checkFails])
   /\ UNCHANGED <<l2, synced, ag>>
